@@ -1,18 +1,142 @@
-import GrmVerif.Model.Recover
-/-! # C06 — theorems being written -/
-namespace GrmVerif.C06
-open GrmVerif Rec
+import GrmVerif.Lemmas.Search
+/-!
+# C06 — repair sequences are the complete minimum-cost set, ranked as documented
 
-/-- stripping trailing shifts leaves no trailing shift -/
+Specification: `Rec.Search` (declarative: which complete repair sequences a cost-`k` search from a
+configuration yields) and the executable reference `Rec.enumerate` / `Rec.minCostRepairs` /
+`Rec.refRepairs` (`Model/Recover.lean`). The theorems say the reference IS the declarative
+search, at the minimum cost, complete at that cost. The real recoverer's reported set must equal
+`refRepairs` (as a set) for every error within the cost cap, and its order is checked against the
+documented ranking.
+-/
+namespace GrmVerif.C06
+open GrmVerif Rec LR
+
+/-- **The reference enumeration is the search relation** (with the fuel the reference uses). -/
+theorem enumerate_iff_search (G : Grammar) (A : Automaton) (w : List Nat) (cost : Nat → Nat) (N : Nat)
+    (start : Pos) (c : Nat) (seq : List Repair) :
+    seq ∈ enumerate G A w cost N (2 * (c + w.length) + 6) c ⟨start, [], 0⟩ ↔
+      Search G A w cost N ⟨start, [], 0⟩ c seq := by
+  constructor
+  · exact enumerate_sound G A w cost N _ c _ seq
+  · intro h
+    exact enumerate_complete G A w cost N _ c seq h _ (by simp only; omega)
+
+theorem minCostFrom_spec (G : Grammar) (A : Automaton) (w : List Nat) (cost : Nat → Nat) (N : Nat)
+    (start : Pos) :
+    ∀ (remaining c0 c : Nat) (rs : List (List Repair)),
+      minCostFrom G A w cost N start remaining c0 = some (c, rs) →
+      c0 ≤ c ∧ rs ≠ [] ∧ (∀ seq, seq ∈ rs ↔ Search G A w cost N ⟨start, [], 0⟩ c seq) ∧
+      ∀ c', c0 ≤ c' → c' < c → ∀ seq, ¬ Search G A w cost N ⟨start, [], 0⟩ c' seq := by
+  intro remaining
+  induction remaining with
+  | zero => intro c0 c rs h; simp [minCostFrom] at h
+  | succ r ih =>
+    intro c0 c rs h
+    simp only [minCostFrom] at h
+    by_cases he : (enumerate G A w cost N (2 * (c0 + w.length) + 6) c0 ⟨start, [], 0⟩).isEmpty = true
+    · rw [if_pos he] at h
+      obtain ⟨h1, h2, h3, h4⟩ := ih (c0 + 1) c rs h
+      refine ⟨by omega, h2, h3, ?_⟩
+      intro c' hc0 hc seq hs
+      by_cases heq : c' = c0
+      · subst heq
+        have := (enumerate_iff_search G A w cost N start c' seq).mpr hs
+        rw [List.isEmpty_iff] at he
+        rw [he] at this; cases this
+      · exact h4 c' (by omega) hc seq hs
+    · rw [if_neg he] at h
+      simp only [Option.some.injEq, Prod.mk.injEq] at h
+      obtain ⟨rfl, rfl⟩ := h
+      refine ⟨Nat.le_refl _, ?_, fun seq => enumerate_iff_search G A w cost N start c0 seq, ?_⟩
+      · intro hnil; rw [hnil] at he; simp at he
+      · intro c' h1 h2; omega
+
+/-- **Minimum cost, complete at that cost.** If the reference finds cost `c` with the set `rs`:
+`rs` is exactly the set of complete repair sequences of cost `c` (every one of them is found), it
+is not empty, and no repair of lower cost exists. -/
+theorem min_cost_complete (G : Grammar) (A : Automaton) (w : List Nat) (cost : Nat → Nat) (N : Nat)
+    (start : Pos) (cap c : Nat) (rs : List (List Repair))
+    (h : minCostRepairs G A w cost N start cap = some (c, rs)) :
+    rs ≠ [] ∧ (∀ seq, seq ∈ rs ↔ Search G A w cost N ⟨start, [], 0⟩ c seq) ∧
+    ∀ c', c' < c → ∀ seq, ¬ Search G A w cost N ⟨start, [], 0⟩ c' seq := by
+  obtain ⟨_, h2, h3, h4⟩ := minCostFrom_spec G A w cost N start _ 0 c rs h
+  exact ⟨h2, h3, fun c' hc => h4 c' (Nat.zero_le _) hc⟩
+
+/-- **What a reported sequence is.** Every sequence of the search applies from the error
+configuration with plain LR semantics, costs exactly the search cost (sum of the costs of inserted
+and deleted tokens), never inserts the end-of-input token, and ends in a success configuration
+(`N` trailing shifts or acceptance). -/
+theorem search_sequence_valid (G : Grammar) (A : Automaton) (w : List Nat) (cost : Nat → Nat) (N : Nat)
+    (start : Pos) (c : Nat) (seq : List Repair) (h : Search G A w cost N ⟨start, [], 0⟩ c seq) :
+    ∃ cf, applySeq G A w start seq = some cf ∧ seqCost w cost start.pos seq = c ∧
+      Repair.insert G.eof ∉ seq ∧ ∃ m : Node, m.c = cf ∧ isSuccess G A w N m = true := by
+  obtain ⟨suf, cf, h1, h2, h3, h4, m, hm1, _, hm3⟩ := search_applies G A w cost N _ c seq h
+  simp only [List.reverse_nil, List.nil_append] at h1
+  subst h1
+  exact ⟨cf, h2, h3, h4, m, hm1, hm3⟩
+
+/-- **No sequence ends in a shift** -/
 theorem stripShifts_no_trailing (rs : List Repair) : (stripShifts rs).getLast? ≠ some .shift := by
   unfold stripShifts
   rw [List.getLast?_reverse]
   cases h : rs.reverse.dropWhile (· == Repair.shift) with
   | nil => simp
   | cons a as =>
-    have := List.head_dropWhile_not (fun x => x == Repair.shift) rs.reverse (by rw [h]; simp)
+    have := List.head_dropWhile_not (fun x => x == Repair.shift) (l := rs.reverse) (by rw [h]; simp)
     simp only [h, List.head_cons] at this
     simp only [List.head?_cons, ne_eq, Option.some.injEq]
     intro e; subst e; simp at this
+
+/-- **The reference answer**: every reported sequence is a minimum-cost search sequence with its
+trailing shifts removed, that lets parsing continue as far as the best; none ends in a shift; none
+is reported twice. -/
+theorem refRepairs_spec (G : Grammar) (A : Automaton) (w : List Nat) (cost : Nat → Nat) (N : Nat)
+    (start : Pos) (cap c : Nat) (out : List (List Repair))
+    (h : refRepairs G A w cost N start cap = some (c, out)) :
+    out.Nodup ∧ (∀ r ∈ out, r.getLast? ≠ some .shift) ∧
+    ∀ r ∈ out, ∃ seq, Search G A w cost N ⟨start, [], 0⟩ c seq ∧ r = stripShifts seq ∧
+      ∀ seq', Search G A w cost N ⟨start, [], 0⟩ c seq' →
+        distance G A w start seq' ≤ distance G A w start seq := by
+  unfold refRepairs at h
+  cases hm : minCostRepairs G A w cost N start cap with
+  | none => rw [hm] at h; cases h
+  | some v =>
+    obtain ⟨c0, rs⟩ := v
+    rw [hm] at h
+    simp only [Option.some.injEq, Prod.mk.injEq] at h
+    obtain ⟨rfl, rfl⟩ := h
+    obtain ⟨_, hiff, _⟩ := min_cost_complete G A w cost N start cap c0 rs hm
+    refine ⟨nodup_dedup _, ?_, ?_⟩
+    · intro r hr
+      rw [mem_dedup] at hr
+      simp only [List.mem_map, List.mem_filter] at hr
+      obtain ⟨seq, _, rfl⟩ := hr
+      exact stripShifts_no_trailing seq
+    · intro r hr
+      rw [mem_dedup] at hr
+      simp only [List.mem_map, List.mem_filter, beq_iff_eq] at hr
+      obtain ⟨seq, ⟨hseq, hfar⟩, rfl⟩ := hr
+      refine ⟨seq, (hiff seq).mp hseq, rfl, ?_⟩
+      intro seq' hs'
+      have hm' := (hiff seq').mpr hs'
+      rw [hfar]
+      -- the fold of max over the distances bounds each of them
+      have : ∀ (l : List Nat) (init x : Nat), x ∈ l → x ≤ l.foldl max init := by
+        intro l
+        induction l with
+        | nil => intro init x hx; cases hx
+        | cons a as ih =>
+          intro init x hx
+          simp only [List.foldl_cons]
+          rcases List.mem_cons.mp hx with rfl | hx
+          · have : ∀ (l : List Nat) (i : Nat), i ≤ l.foldl max i := by
+              intro l
+              induction l with
+              | nil => intro i; exact Nat.le_refl _
+              | cons b bs ihb => intro i; simp only [List.foldl_cons]; exact Nat.le_trans (Nat.le_max_left _ _) (ihb _)
+            exact Nat.le_trans (Nat.le_max_right _ _) (this as _)
+          · exact ih _ x hx
+      exact this _ 0 _ (List.mem_map.mpr ⟨seq', hm', rfl⟩)
 
 end GrmVerif.C06
